@@ -1,5 +1,5 @@
 (* Proofs/ProcessP.v — lemmas about the process-state model (Model/Process.v). *)
-From Coq Require Import String QArith.
+From Coq Require Import String QArith Qabs.
 From CKT Require Import Common.Base Model.Process.
 Close Scope Q_scope.
 Open Scope string_scope.
@@ -88,6 +88,47 @@ Lemma import_actions_ok : exists an, import_actions = Ok an /\ wf_registry an.
 Proof. eexists; split; [reflexivity|]. split; simpl; [|reflexivity]. repeat constructor; simpl; intuition discriminate. Qed.
 
 (* ---------------- one step ---------------- *)
+
+(* ---------------- probabilities are non-negative ---------------- *)
+
+Lemma qsum_abs_nonneg : forall l, (0 <= qsum (map Qabs l))%Q.
+Proof.
+  induction l as [|x l IH]; simpl; [apply Qle_refl|].
+  rewrite <- (Qplus_0_l 0). apply Qplus_le_compat; [apply Qabs_nonneg|exact IH].
+Qed.
+
+Lemma probabilities_nonneg : forall coeffs v, In v (probabilities coeffs) -> (0 <= v)%Q.
+Proof.
+  intros coeffs v H. unfold probabilities in H. apply in_map_iff in H as [c [<- _]].
+  unfold Qdiv. apply Qmult_le_0_compat; [apply Qabs_nonneg|]. apply Qinv_le_0_compat, qsum_abs_nonneg.
+Qed.
+
+Lemma fold_qmin_nonneg : forall l v, (0 <= v)%Q -> (forall x, In x l -> (0 <= x)%Q) -> (0 <= fold_left qmin l v)%Q.
+Proof.
+  induction l as [|x l IH]; intros v Hv H; simpl; [exact Hv|].
+  apply IH; [|intros y Hy; apply H; now right].
+  unfold qmin. destruct (Qle_bool v x); [exact Hv|apply H; now left].
+Qed.
+
+Lemma min_filter_nonzero_nonneg : forall vals m, (forall v, In v vals -> (0 <= v)%Q) ->
+  min_filter_nonzero vals = Some m -> (0 <= m)%Q.
+Proof.
+  intros vals m H E. unfold min_filter_nonzero in E.
+  destruct (filter _ vals) as [|v r] eqn:F; [discriminate|]. inversion E; subst m.
+  assert (HF : forall x, In x (v :: r) -> (0 <= x)%Q).
+  { intros x Hx. rewrite <- F in Hx. apply filter_In in Hx as [Hx _]. now apply H. }
+  apply fold_qmin_nonneg; [apply HF; now left|intros x Hx; apply HF; now right].
+Qed.
+
+Lemma prod_min_nonzero_nonneg : forall bases p, prod_min_nonzero bases = Some p -> (0 <= p)%Q.
+Proof.
+  induction bases as [|b r IH]; intros p E; simpl in E.
+  - inversion E; subst. discriminate.
+  - destruct (min_filter_nonzero (probabilities b)) as [m|] eqn:Em; [|discriminate].
+    destruct (prod_min_nonzero r) as [q|] eqn:Eq; [|discriminate]. inversion E; subst p.
+    apply Qmult_le_0_compat; [|now apply IH].
+    eapply min_filter_nonzero_nonneg; [|exact Em]. apply probabilities_nonneg.
+Qed.
 
 Section ProcessP.
 Variable O : oracles.
@@ -184,11 +225,11 @@ Proof.
 Qed.
 
 (* weights.py: finite num_samples >= 1 with threshold 1/num_samples <= smallest probability: the all-exact branch *)
-Lemma finite_exact_threshold : forall a n, (1 / n <= smallest_probability O a)%Q ->
+Lemma finite_exact_threshold : forall a n p, smallest_probability O a = Some p -> (1 / n <= p)%Q ->
   reaches_sampler O a (NFin n) = false.
 Proof.
-  intros a n H. unfold reaches_sampler. destruct (negb (ns_valid (NFin n))); [reflexivity|].
-  assert (E : Qle_bool (threshold (NFin n)) (smallest_probability O a) = true) by (apply Qle_bool_iff; exact H).
+  intros a n p Hp H. unfold reaches_sampler. destruct (negb (ns_valid (NFin n))); [reflexivity|]. rewrite Hp.
+  assert (E : Qle_bool (threshold (NFin n)) p = true) by (apply Qle_bool_iff; exact H).
   now rewrite E.
 Qed.
 
@@ -229,15 +270,13 @@ Proof.
 Qed.
 
 (* ---- num_samples = inf ---- *)
-(* contract of the oracle field: a product of minima of non-negative probabilities (|coeff| / kappa) *)
-Hypothesis smallest_nonneg : forall a, (0 <= smallest_probability O a)%Q.
-
-(* threshold 0 <= smallest probability: the all-exact branch returns *)
+(* threshold 0 <= smallest probability (a product of minima of |coeff|/kappa: smallest_nonneg): the all-exact branch returns *)
 Lemma exact_never_samples : forall a, reaches_sampler O a NInf = false.
 Proof.
   intros a; unfold reaches_sampler; simpl.
-  assert (E : Qle_bool 0 (smallest_probability O a) = true) by (apply Qle_bool_iff, smallest_nonneg).
-  now rewrite E.
+  destruct (smallest_probability O a) as [p|] eqn:E; [|reflexivity].
+  assert (E' : Qle_bool 0 p = true) by (apply Qle_bool_iff; exact (prod_min_nonzero_nonneg _ _ E)).
+  now rewrite E'.
 Qed.
 
 Lemma inf_exact_class : forall a, exact_class O (GenExact O a) = true.
